@@ -2,6 +2,7 @@ package props
 
 import (
 	"fmt"
+	"strings"
 	"sync"
 	"time"
 
@@ -34,6 +35,7 @@ type c12Scen struct {
 }
 
 type histOp struct {
+	Exempt   bool
 	Task     int
 	Call     int64
 	Ret      int64
@@ -377,6 +379,33 @@ func runC12(x *Ctx) {
 	}
 	x.Res.Nontrivial = overlap || s.Counts["blocked-probes"] > 0
 
+	// Through ServeHTTP a request reads the registration state twice: the ServeMux decides between the
+	// dispatcher and a plain handler, then the router looks at the services. The statement promises one
+	// state per request for Add/Remove/Route/RemoveRoute; Handle and HandleWithFilter are exercised here
+	// as an extension (same lock, same mux). A request to a plain handler's pattern that overlaps that
+	// very registration may therefore combine "not yet on the mux" with a later service state: it is
+	// exempt from the linearizability verdict (and only from that).
+	exempt := map[int]bool{}
+	if sc.entry == EntryServeHTTP {
+		for i, h := range all {
+			if h.Probe == nil {
+				continue
+			}
+			for _, g := range all {
+				if g.Admin == nil || !strings.HasPrefix(g.Admin.Kind, "handle") || !(g.Call < h.Ret && h.Call < g.Ret) {
+					continue
+				}
+				pat := c12Plain[g.Admin.Plain]
+				if h.Probe.Path == pat || h.Probe.Path+"/" == pat || (strings.HasSuffix(pat, "/") && strings.HasPrefix(h.Probe.Path, pat)) {
+					exempt[i] = true
+					x.Count("relaxed:request-overlapping-the-registration-of-its-plain-handler")
+				}
+			}
+		}
+	}
+	for i := range all {
+		all[i].Exempt = exempt[i]
+	}
 	// linearizability against the registration model
 	var mu sync.Mutex
 	states := map[string]RegState{init.Key(): init}
@@ -391,6 +420,9 @@ func runC12(x *Ctx) {
 				ns := st.Apply(*h.Admin)
 				states[ns.Key()] = ns
 				return true, ns.Key()
+			}
+			if h.Exempt {
+				return true, state
 			}
 			return ref.Outcome(st, sc.entry, *h.Probe).Key() == output.(string), state
 		},
